@@ -60,7 +60,7 @@ FORMATS = ["csv", "vot", "tab"]
 COLS = ["ra", "dec", "peak_flux", "a", "b", "pa"]
 COLARG = dict(ra="ra_col", dec="dec_col", peak_flux="peak_col", a="a_col", b="b_col", pa="pa_col")
 ALTNAME = dict(ra="RAJ2000", dec="DEJ2000", peak_flux="Speak", a="Maj", b="Min", pa="PosAng")
-MASK_MODES = [["frac", 0.1], ["frac", 0.5], ["frac", 0.9], ["sigma", 4.0, 0.01], ["sigma", 4.0, 0.05], ["sigma", 10.0, 0.05]]
+MASK_MODES = [["frac", 0.0], ["frac", 0.1], ["frac", 0.5], ["frac", 0.9], ["sigma", 4.0, 0.01], ["sigma", 4.0, 0.05], ["sigma", 10.0, 0.05]]
 MASK_PAIRS = [["interiorA", "interiorB"], ["interiorA", "near_row_lo"], ["interiorB", "edge_row_hi"],
               ["near_col_hi", "edge_col_lo"], ["interiorA", "far_antipode"], ["edge_row_lo", "far_pole"]]
 ADDSUB_CATS = [["interiorA"], ["interiorA", "interiorB"], ["interiorA", "near_col_hi", "off_row_lo"],
